@@ -2,8 +2,10 @@
 //!
 //! N worker threads each call the real `Submissions::add` (through
 //! `AsyncFd::drop`, which queues a CLOSE for its own descriptor — so every
-//! entry is identifiable by its fd) and are interleaved at a10's scheduling
-//! points by the deterministic scheduler; the simulated kernel consumes
+//! entry is identifiable by its fd; every third entry instead through dropping an
+//! in-flight operation, which queues an ASYNC_CANCEL for it via
+//! `Submissions::cancel` — identifiable by the operation's user_data) and are
+//! interleaved at a10's scheduling points by the deterministic scheduler; the simulated kernel consumes
 //! entries at script-chosen moments; the ring counters start anywhere.
 
 use std::collections::HashMap;
@@ -23,7 +25,16 @@ struct Worker {
     fd: i32,
     loads: u32,
     done: Option<String>,
+    /// this submitter drops an in-flight operation (its entry is the ASYNC_CANCEL for `user_data`)
+    cancel_ud: Option<u64>,
+    /// the queue was full at some moment while this call was running
+    saw_full: bool,
 }
+
+type OpFut = std::pin::Pin<Box<dyn std::future::Future<Output = std::io::Result<Vec<u8>>> + Send>>;
+
+/// Operations started (and taken by the kernel) before the script begins.
+const POOL: u32 = 6;
 
 struct SqCase {
     ring: Option<Ring>,
@@ -32,6 +43,11 @@ struct SqCase {
     len: u32,
     workers: Vec<Worker>,
     fd2entry: HashMap<i32, u64>,
+    /// user_data of a dropped operation -> entry of its cancel request
+    ud2entry: HashMap<u64, u64>,
+    /// in-flight operations not yet dropped: (future, user_data)
+    pool: Vec<(OpFut, u64)>,
+    op_fd: Option<&'static AsyncFd>,
     steps_left: u32,
     next_entry: u64,
     accepted: Vec<u64>,
@@ -63,6 +79,9 @@ impl SqCase {
             len: len as u32,
             workers: Vec::new(),
             fd2entry: HashMap::new(),
+            ud2entry: HashMap::new(),
+            pool: Vec::new(),
+            op_fd: None,
             steps_left: steps,
             next_entry: n,
             accepted: Vec::new(),
@@ -77,7 +96,8 @@ impl SqCase {
         if !ok {
             return c;
         }
-        simk::activate(simk::SetupCfg { sq_head0: h0 as u32, cq_head0: 0, ..Default::default() });
+        // POOL operations are started before the script begins: the counters start that much earlier
+        simk::activate(simk::SetupCfg { sq_head0: (h0 as u32).wrapping_sub(POOL), cq_head0: 0, ..Default::default() });
         // `si=1`: a single-issuer ring (only the owner enters the kernel; every thread may still queue)
         let si = get("si").unwrap_or(0) == 1;
         let cfg = Ring::config().with_submission_queue_size(len as u32);
@@ -96,6 +116,25 @@ impl SqCase {
         c.sq = Some(ring.sq());
         c.rfd = simk::with_sim(|s| *s.rings.keys().next().unwrap());
         c.ring = Some(ring);
+        // Start POOL reads (they never complete) and let the kernel take each at once; the slots
+        // are cleared again, so the script starts from an empty queue at `h0`.
+        let raw = simk::with_ring(c.rfd, |r, _| r.fresh_fd_min(900));
+        let op_fd: &'static AsyncFd = Box::leak(Box::new(unsafe { AsyncFd::from_raw_fd(raw, c.sq.as_ref().unwrap().clone()) }));
+        c.op_fd = Some(op_fd);
+        for _ in 0..POOL {
+            let mut f: OpFut = Box::pin(op_fd.read(Vec::with_capacity(8)));
+            let w = util::waker(778);
+            let mut cx = std::task::Context::from_waker(&w);
+            let _ = f.as_mut().poll(&mut cx);
+            let ud = simk::with_ring(c.rfd, |r, ev| {
+                let idx = r.sq_head();
+                let ud = r.sqe_at(idx).user_data;
+                r.consume(1, ev);
+                r.clear_sqe(idx);
+                ud
+            });
+            c.pool.push((f, ud));
+        }
         sched::install();
         for e in 0..n {
             c.spawn_worker(e);
@@ -104,7 +143,27 @@ impl SqCase {
         c
     }
 
-    fn spawn_worker(&mut self, entry: u64) -> usize {
+    /// A new call of `Submissions::add` for `entry`, as a scheduled thread: every third entry
+    /// (while the pool lasts) by dropping an in-flight operation, the others by dropping an `AsyncFd`.
+    fn new_worker(&mut self, entry: u64) -> Worker {
+        if entry % 3 == 2 && !self.pool.is_empty() {
+            let (fut, ud) = self.pool.remove(0);
+            self.ud2entry.insert(ud, entry);
+            self.feats.push("cancel-submitter".into());
+            let tid = sched::spawn(move || {
+                drop(fut);
+                String::new()
+            });
+            // the first scheduling point is the operation's own (uncontended) lock: pass it
+            if let Some(Status::Parked(kind, _)) = sched::status(tid) {
+                if kind == sched::LOCK {
+                    sched::step(tid);
+                }
+            }
+            // `Submissions::cancel` goes straight for the submission lock (no unlocked pre-check:
+            // fix e17b949), so its loads are the third and fourth of the protocol
+            return Worker { sched_tid: tid, entry, fd: -1, loads: 2, done: None, cancel_ud: Some(ud), saw_full: false };
+        }
         let min = 1000 + 2 * entry as i32;
         let raw = simk::with_ring(self.rfd, |r, _| r.fresh_fd_min(min));
         self.fd2entry.insert(raw, entry);
@@ -113,10 +172,49 @@ impl SqCase {
             drop(fd);
             String::new()
         });
-        self.workers.push(Worker { sched_tid: tid, entry, fd: raw, loads: 0, done: None });
+        Worker { sched_tid: tid, entry, fd: raw, loads: 0, done: None, cancel_ud: None, saw_full: false }
+    }
+
+    fn spawn_worker(&mut self, entry: u64) -> usize {
+        let w = self.new_worker(entry);
+        self.workers.push(w);
         let i = self.workers.len() - 1;
         self.after_step(i);
         i
+    }
+
+    /// Which entry is this submission? (CLOSE: by descriptor; ASYNC_CANCEL: by target user_data)
+    fn entry_of(&self, sqe: &simk::Sqe) -> Option<u64> {
+        if sqe.opcode == simk::OP_CLOSE {
+            self.fd2entry.get(&sqe.fd).copied()
+        } else if sqe.opcode == simk::OP_ASYNC_CANCEL {
+            self.ud2entry.get(&sqe.addr).copied()
+        } else {
+            None
+        }
+    }
+
+    /// Is `entry` in the queue (published, not yet consumed)?
+    fn in_queue(&self, entry: u64) -> bool {
+        simk::with_ring(self.rfd, |r, _| {
+            let (mut h, t) = (r.sq_head(), r.sq_tail());
+            while h != t {
+                if self.entry_of(&r.sqe_at(h)) == Some(entry) {
+                    return true;
+                }
+                h = h.wrapping_add(1);
+            }
+            false
+        })
+    }
+
+    fn note_fullness(&mut self) {
+        let (h, t) = simk::with_ring(self.rfd, |r, _| (r.sq_head(), r.sq_tail()));
+        if t.wrapping_sub(h) >= self.len {
+            for w in self.workers.iter_mut().filter(|w| w.done.is_none()) {
+                w.saw_full = true;
+            }
+        }
     }
 
     fn state_line(&self) -> String {
@@ -126,8 +224,8 @@ impl SqCase {
                     let sqe = r.sqe_at(i);
                     if sqe.is_zero() {
                         "_".to_string()
-                    } else if sqe.opcode == simk::OP_CLOSE {
-                        match self.fd2entry.get(&sqe.fd) {
+                    } else if sqe.opcode == simk::OP_CLOSE || sqe.opcode == simk::OP_ASYNC_CANCEL {
+                        match self.entry_of(&sqe) {
                             Some(e) => e.to_string(),
                             None => format!("fd{}", sqe.fd),
                         }
@@ -160,7 +258,8 @@ impl SqCase {
                     _ => "at-ld-?",
                 }
                 .to_string(),
-                sched::LOCK => "at-lock".to_string(),
+                // (a `try_lock` on the submission lock is the same point of the protocol)
+                sched::LOCK | sched::TRY_LOCK => "at-lock".to_string(),
                 sched::STORE_SQ_TAIL => "at-st-tail".to_string(),
                 k => format!("at-hook{k}"),
             },
@@ -187,12 +286,22 @@ impl SqCase {
                 if self.workers[i].done.is_none() {
                     // Published (ok) or fell back to close(2) (full)?
                     let fd = self.workers[i].fd;
-                    let synced = simk::with_sim(|s| s.events.iter().any(|e| matches!(e, KEv::CloseFd { fd: f, .. } if *f == fd)));
+                    let entry = self.workers[i].entry;
+                    let synced = match self.workers[i].cancel_ud {
+                        // a cancel request that found no room is simply not queued
+                        Some(_) => !(self.consumed.contains(&entry) || self.in_queue(entry)),
+                        None => simk::with_sim(|s| s.events.iter().any(|e| matches!(e, KEv::CloseFd { fd: f, .. } if *f == fd))),
+                    };
+                    if synced && self.workers[i].cancel_ud.is_some() && !self.workers[i].saw_full && r != "panic" {
+                        self.oracle.push(("C06".into(), "C06/cancel-not-queued".into(), format!("submitter {i} dropped an in-flight operation and no cancel request was queued although the submission queue was never full during the call")));
+                    }
                     if r == "panic" {
                         self.workers[i].done = Some("panic".into());
                         self.oracle.push(("C04".into(), "C04/panic".into(), format!("submitter {i} panicked")));
                     } else if synced {
-                        self.closed_sync.push(fd);
+                        if fd >= 0 {
+                            self.closed_sync.push(fd);
+                        }
                         self.workers[i].done = Some("done-full".into());
                         self.feats.push("queue-full".into());
                     } else {
@@ -215,18 +324,18 @@ impl SqCase {
                 return ("idle".to_string(), None);
             }
             let mut torn = false;
-            let mut fd = None;
+            let mut got = None;
             for e in &ev[n..] {
                 match e {
                     KEv::TornEntry { .. } => torn = true,
-                    KEv::Consumed { sqe, .. } => fd = Some(sqe.fd),
+                    KEv::Consumed { sqe, .. } => got = Some(*sqe),
                     _ => {}
                 }
             }
             if torn {
                 (format!("consume slot {idx} torn"), None)
             } else {
-                let e = fd.and_then(|f| self.fd2entry.get(&f).copied());
+                let e = got.and_then(|q| self.entry_of(&q));
                 match e {
                     Some(e) => (format!("consume slot {idx} entry {e}"), Some(e)),
                     None => (format!("consume slot {idx} entry ?"), None),
@@ -370,7 +479,7 @@ impl Case for SqCase {
                 if r.is_err() {
                     self.oracle.push(("C04".into(), "C04/panic".into(), "Ring::poll panicked".into()));
                 }
-                let (to_submit, got): (Option<u32>, Vec<Option<i32>>) = simk::with_sim(|s| {
+                let (to_submit, got): (Option<u32>, Vec<Option<simk::Sqe>>) = simk::with_sim(|s| {
                     let mut ts = None;
                     let mut got = Vec::new();
                     for e in &s.events[n0.min(s.events.len())..] {
@@ -381,7 +490,7 @@ impl Case for SqCase {
                                 }
                             }
                             KEv::TornEntry { .. } => got.push(None),
-                            KEv::Consumed { sqe, .. } => got.push(Some(sqe.fd)),
+                            KEv::Consumed { sqe, .. } => got.push(Some(*sqe)),
                             _ => {}
                         }
                     }
@@ -389,7 +498,7 @@ impl Case for SqCase {
                 });
                 let mut names = Vec::new();
                 for g in got {
-                    match g.and_then(|f| self.fd2entry.get(&f).copied()) {
+                    match g.as_ref().and_then(|q| self.entry_of(q)) {
                         Some(e) => {
                             if self.consumed.contains(&e) {
                                 self.oracle.push(("C04".into(), "C04/consumed-twice".into(), format!("entry {e} reached the kernel twice")));
@@ -432,17 +541,10 @@ impl Case for SqCase {
                     return vec!["bad-op".into()];
                 }
                 // a new call of add() by "the same" submitter: replace worker i
-                let min = 1000 + 2 * e as i32;
-                let raw = simk::with_ring(self.rfd, |r, _| r.fresh_fd_min(min));
-                self.fd2entry.insert(raw, e);
-                let fd = unsafe { AsyncFd::from_raw_fd(raw, self.sq.as_ref().unwrap().clone()) };
-                let tid = sched::spawn(move || {
-                    drop(fd);
-                    String::new()
-                });
+                let w = self.new_worker(e);
                 let old = &self.workers[i];
                 self.retired.push((old.entry, old.done.clone().unwrap_or_default()));
-                self.workers[i] = Worker { sched_tid: tid, entry: e, fd: raw, loads: 0, done: None };
+                self.workers[i] = w;
                 self.after_step(i);
                 self.next_entry = self.next_entry.max(e + 1);
                 vec!["ok".into()]
@@ -452,6 +554,10 @@ impl Case for SqCase {
     }
 
     fn drain_oracle(&mut self) -> Vec<(String, String, String)> {
+        // (called after every op: the queue's fill level only changes at op boundaries)
+        if self.ok {
+            self.note_fullness();
+        }
         std::mem::take(&mut self.oracle)
     }
 
@@ -468,12 +574,17 @@ impl Case for SqCase {
             }
         }
         // Let every submitter finish, then let the kernel consume everything.
-        for _ in 0..10_000 {
+        let t0 = std::time::Instant::now();
+        for _round in 0..10_000 {
+            if _round == 9_999 && std::env::var_os("A10H_DEBUG").is_some() {
+                eprintln!("finish: still running after 10000 rounds: {:?} {}", self.workers.iter().map(|w| (w.entry, self.pc_name(w), w.cancel_ud.is_some())).collect::<Vec<_>>(), self.state_line());
+            }
             let running: Vec<usize> = (0..self.workers.len()).filter(|i| self.workers[*i].done.is_none()).collect();
             if running.is_empty() {
                 break;
             }
             for i in running {
+                self.note_fullness();
                 sched::step(self.workers[i].sched_tid);
                 self.after_step(i);
             }
@@ -487,6 +598,9 @@ impl Case for SqCase {
             }
         }
         let stuck = sched::finish_all();
+        if std::env::var_os("A10H_DEBUG").is_some() && t0.elapsed().as_millis() > 200 {
+            eprintln!("finish took {:?}", t0.elapsed());
+        }
         if !stuck.is_empty() {
             self.oracle.push(("C04".into(), "C04/add-never-returns".into(), format!("{} submitter(s) did not return from Submissions::add within 100000 scheduling steps although the kernel consumed every entry", stuck.len())));
         }
@@ -507,7 +621,26 @@ impl Case for SqCase {
                 self.oracle.push(("C04".into(), "C04/consumed-unpublished".into(), format!("entry {} was refused (QueueFull) yet consumed", w.0)));
             }
         }
+        // the operations nobody dropped, then the descriptor they were started on
+        self.pool.clear();
+        if let Some(fd) = self.op_fd.take() {
+            unsafe { drop(Box::from_raw(std::ptr::from_ref(fd).cast_mut())) };
+        }
+        let rfd = self.rfd;
+        let kt = self.kt;
+        let kthread = move || {
+            // The (awake) kernel thread takes what the teardown queued — a real one does so on its
+            // own; a10's last handle waits for it (fix 5ae3e32), the simulated one runs when told to.
+            if kt {
+                simk::with_ring(rfd, |r, ev| {
+                    let n = r.sq_pending();
+                    r.consume(n, ev);
+                });
+            }
+        };
+        kthread();
         drop(self.ring.take());
+        kthread();
         drop(self.sq.take());
         simk::drain_events();
         util::drain_wakes();
@@ -525,7 +658,7 @@ impl Comp for SqComp {
         "sq"
     }
     fn rule(&self) -> String {
-        "each case = 2..4 real threads calling Submissions::add (via AsyncFd::drop, one identifiable CLOSE entry each; re-armed with fresh entries) on a ring with 1/2/4/8 entries and an arbitrary initial 32-bit head/tail (0, 2^31, 2^32-k), interleaved at a10's scheduling points by a random schedule of ≤ 80 steps with the simulated kernel consuming entries in between; non-trivial = two submitters were simultaneously between the unlocked fullness check and the lock, or the lock was contended, or the tail wrapped past 2^32, or a QueueFull was answered; distinct = distinct schedules".into()
+        "each case = 2..4 real threads calling Submissions::add (via AsyncFd::drop, one identifiable CLOSE entry each, or — every third entry — via dropping an in-flight operation, one identifiable ASYNC_CANCEL entry through Submissions::cancel; re-armed with fresh entries) on a ring with 1/2/4/8 entries and an arbitrary initial 32-bit head/tail (0, 2^31, 2^32-k), interleaved at a10's scheduling points by a random schedule of ≤ 80 steps with the simulated kernel consuming entries in between; non-trivial = two submitters were simultaneously between the unlocked fullness check and the lock, or the lock was contended, or the tail wrapped past 2^32, or a QueueFull was answered; distinct = distinct schedules".into()
     }
     fn gen_header(&mut self, rng: &mut Rng, id: u64, _tier: &str) -> String {
         if rng.chance(1, 60) {
